@@ -3,6 +3,7 @@
 package main
 
 import (
+	"bufio"
 	"bytes"
 	"context"
 	"encoding/base64"
@@ -155,12 +156,16 @@ func (s *sweep) check(q httpReq, resp httpResp) {
 		desc += " body=" + b
 	}
 	switch {
+	case resp.Code >= 500 && strings.Contains(resp.Err, "migrating bucket: failed to create version table: failed to insert version: missing table"):
+		// stand-in limitation, not the code's answer: the request names a bucket pgsem was not booted with (PostgreSQL would
+		// create the schema and run the migrations); nothing can be concluded from this exchange
+		o.Stats["pgsem_unknown_bucket"]++
 	case resp.Code >= 500 || resp.Code < 0:
 		tag := fmt.Sprintf("[5xx:%s:%s:%s]", q.Route, q.Class, causeSlug(resp.Err))
 		viol("server error for client input: " + desc + " " + tag)
 	case resp.Code >= 400:
-		if q.Route == "v2.bulk" && bulkErrorBody(resp.Body) {
-			o.Stats["bulk_error_responses"]++
+		if strings.HasPrefix(q.Route, "v2.bulk") && bulkErrorBody(resp.Body) {
+			o.Stats["bulk_error_responses"]++ // (bulk answers carry no Content-Type header, JSON body {data, errorCode?})
 		} else if q.Method != "HEAD" {
 			if strings.HasPrefix(resp.CT, "application/json") {
 				var env struct {
@@ -184,7 +189,7 @@ func (s *sweep) check(q httpReq, resp httpResp) {
 		}
 	}
 	if q.Write || resp.Code >= 500 || s.nreq%25 == 0 {
-		if (resp.Code >= 200 && resp.Code < 300 && q.Write) || (q.Route == "v2.bulk" && bulkErrorBody(resp.Body)) {
+		if (resp.Code >= 200 && resp.Code < 300 && q.Write) || (strings.HasPrefix(q.Route, "v2.bulk") && bulkErrorBody(resp.Body)) {
 			// a non-atomic bulk answered 400 keeps the elements committed before the failing one (by design, C32)
 			s.cur = s.snapshot()
 			o.Stats["writes_committed"]++
@@ -246,7 +251,11 @@ func bulkErrorBody(b []byte) bool {
 // ---------------------------------------------------------------- request generators
 var sweepBadCursors = []string{"xxx", "!!!!", "e30=", "bnVsbA==", "W10=", base64.RawURLEncoding.EncodeToString([]byte(`{"offset":"a"}`)), base64.RawURLEncoding.EncodeToString([]byte(`{"pageSize":-1,"offset":-5}`)),
 	base64.RawURLEncoding.EncodeToString([]byte(`{"pageSize":1e99}`)), base64.RawURLEncoding.EncodeToString([]byte(`{"qb":{"$foo":1},"pageSize":5,"column":"id","order":1}`)),
-	base64.RawURLEncoding.EncodeToString([]byte(`{"column":"id; drop table","paginationID":"x","order":7,"pageSize":3,"bottom":1,"reverse":true}`)), base64.StdEncoding.EncodeToString([]byte(`{"pit":"yesterday"}`)), "%", "a b", strings.Repeat("A", 5000)}
+	base64.RawURLEncoding.EncodeToString([]byte(`{"column":"id; drop table","paginationID":"x","order":7,"pageSize":3,"bottom":1,"reverse":true}`)), base64.StdEncoding.EncodeToString([]byte(`{"pit":"yesterday"}`)), "%", "a b", strings.Repeat("A", 5000),
+	// well-formed base64 of JSON values that are not a complete cursor: null, and cursors without "order"
+	"bnVsbA", base64.RawURLEncoding.EncodeToString([]byte(`{"offset":1}`)), base64.RawURLEncoding.EncodeToString([]byte(`{"column":"id"}`)),
+	base64.RawURLEncoding.EncodeToString([]byte(`{"offset":0,"pageSize":2,"column":"address"}`)), base64.RawURLEncoding.EncodeToString([]byte(`{"column":"id","pageSize":2,"paginationID":3,"bottom":1}`)),
+	base64.RawURLEncoding.EncodeToString([]byte(`{"offset":2,"order":null,"pageSize":2}`)), base64.RawURLEncoding.EncodeToString([]byte(`true`)), base64.RawURLEncoding.EncodeToString([]byte(`"x"`))}
 var sweepBadDates = []string{"yesterday", "2023-13-01T00:00:00Z", "2023-01-01", "1700000000", "2023-01-01T00:00:00", "0", "-1", "2023-01-01T00:00:00+99:00", "null"}
 var sweepBadPageSizes = []string{"abc", "-1", "0", "1e3", "99999999999999999999", "1.5", " 5", "0x10"}
 var sweepBadFilters = []string{`{"$foo":{"address":"a"}}`, `{"$match":1}`, `{"$match":{"no_such_field":"x"}}`, `{"$match":{"address":1}}`, `{"$gt":{"balance[USD]":"abc"}}`, `{"$and":{}}`, `{"$and":[1]}`, `{"$or":[{"$match":{}}]}`,
@@ -299,6 +308,7 @@ func sweepRoutes() []sweepRoute {
 	return []sweepRoute{
 		{name: "v2.createTransaction", method: "POST", path: constPath(v2 + "/transactions"), body: txBody, write: true},
 		{name: "v2.bulk", method: "POST", path: constPath(v2 + "/_bulk"), body: bulkBody, write: true},
+		{name: "v2.bulk.scriptStream", custom: genScriptStream},
 		{name: "v2.revertTransaction", method: "POST", path: constPath(v2 + "/transactions/%ID%/revert"), write: true, idPos: "id"},
 		{name: "v2.addTransactionMetadata", method: "POST", path: constPath(v2 + "/transactions/%ID%/metadata"), body: metaBody, write: true, idPos: "id"},
 		{name: "v2.deleteTransactionMetadata", method: "DELETE", path: constPath(v2 + "/transactions/%ID%/metadata/k1"), write: true, idPos: "id"},
@@ -358,6 +368,58 @@ func sweepRoutes() []sweepRoute {
 		{name: "v1.stats", method: "GET", path: constPath(v1 + "/stats")},
 		{name: "v1.ledgerInfo", method: "GET", path: constPath(v1 + "/_info")},
 	}
+}
+
+// genScriptStream: POST /_bulk with the script-stream content type: "//script [ik=KEY]" header lines, script text, "//end".
+// The parser runs in a goroutine of the handler (a panic there takes the process down), so the body is first given to
+// bulking.ParseTextStream under recover: a panic is reported here and the request is not sent.
+var sweepScriptStreams = []string{
+	"//script\nsend [USD 1] (\n source = @world\n destination = @alice\n)\n//end\n",
+	"//script ik=k1\nsend [USD 1] (\n source = @world\n destination = @alice\n)\n//end\n//script ik=k2\nsend [USD 2] (\n source = @world\n destination = @bob\n)\n//end\n",
+	"//script ik\nsend [USD 1] (\n source = @world\n destination = @alice\n)\n//end\n",
+	"//script\n//end\n", "//script\n", "//script", "//script ik=\n//end", "//script ik=a,ik=b\nx\n//end", "//script foo=bar\nx\n//end", "//script ,\nx\n//end", "//script =\nx\n//end",
+	"//script ik=a=b\nsend [USD 1] (\n source = @world\n destination = @alice\n)\n//end", "hello", "//end", "\n\n", "", "//script ik=k3\nsend [USD 1] (\n source = @world\n destination = @alice\n)\n",
+	"//scriptx\n//end", "//script\n\n//end\n//script\n//end",
+}
+
+func textStreamPanics(body string) (msg string) {
+	defer func() {
+		if r := recover(); r != nil {
+			msg = fmt.Sprint(r)
+		}
+	}()
+	sc := bufio.NewScanner(strings.NewReader(body))
+	for i := 0; i < 100; i++ {
+		el, err := bulking.ParseTextStream(sc)
+		if err != nil || el == nil {
+			return ""
+		}
+	}
+	return ""
+}
+
+func genScriptStream(s *sweep, r *Rng) httpReq {
+	body := Pick(r, sweepScriptStreams)
+	q := httpReq{Method: "POST", Path: "/v2/l1/_bulk", Body: body, Hdr: map[string]string{"Content-Type": "application/vnd.formance.ledger.api.v2.bulk+script-stream"}, Class: "script_stream", Write: true}
+	if r.Chance(30) {
+		q.Path += "?atomic=true"
+	}
+	// a header the parser rejects makes the whole stream invalid input
+	for _, bad := range []string{"//script ik\n", "ik=a,ik=b", "foo=bar", "//script ,", "//script =", "hello", "//scriptx"} {
+		if strings.Contains(body, bad) {
+			q.MustReject = true
+			q.Class = "script_stream_malformed"
+		}
+	}
+	if body == "//end" {
+		q.MustReject, q.Class = true, "script_stream_malformed"
+	}
+	if m := textStreamPanics(body); m != "" {
+		s.out.Violation("C38", q.sx(), "bulking.ParseTextStream panics on a client body (in the handler it runs in a goroutine without recover: the process dies): "+m+" [text-stream-parser-panic]")
+		q.Body = sweepScriptStreams[0] // keep the harness alive: send a valid stream instead
+		q.Class = "script_stream_replaced"
+	}
+	return q
 }
 
 func (s *sweep) gen(r *Rng, rt sweepRoute) httpReq {
@@ -587,7 +649,7 @@ func genLedgerName(s *sweep, r *Rng) httpReq {
 		q.MustReject = true
 	case 2:
 		q.Method, q.Path = "GET", "/v2/"+esc
-		q.MustReject = true
+		q.MustReject = name != "_info" // GET /v2/_info is the server-info route, not a ledger read
 	case 3:
 		q.Method, q.Path, q.Body = "PUT", "/v2/"+esc+"/metadata", `{"a":"b"}`
 		// updating the metadata of a ledger that does not exist is answered 204 (an UPDATE of zero rows): no effect, not counted as accepted-invalid
